@@ -64,6 +64,15 @@ void sim_alloc_reset();                       // counters + config to defaults; 
 size_t sim_alloc_live_count();
 std::vector<SimAllocRec> sim_alloc_live();    // snapshot of live yara allocations
 void sim_alloc_forget_all();                  // drop the live table (does not free)
+// Deterministic heap for yara's allocations (threaded engines): a bump allocator in a region mapped at a fixed
+// address, never reusing memory within a run.  Heap addresses then depend only on the allocation sequence of the
+// run - not on ASLR nor on what the process did before - which matters because yara compares pointers
+// (yr_arena_ptr_to_ref walks buffers by address range), i.e. addresses decide how many basic blocks execute.
+// Red zones and freed blocks are ASan-poisoned by hand.
+void sim_detheap_enable();          // map the region (once), switch sim_malloc & co. over to it
+void sim_detheap_mark();            // allocations so far are long-lived (shared rule sets)
+void sim_detheap_reset();           // start of a run: everything after the mark is discarded
+size_t sim_detheap_used();
 std::string sim_symbolize(void* pc);          // function name from own ELF symtab ("?" if none)
 std::string sim_symbolize_data(const void* addr);   // "symbol+off" for an address inside a data object
 std::string sim_bt_chain(void* const* bt, int skip_sim, int want); // "f1<-f2<-f3" of yara frames
@@ -82,6 +91,7 @@ struct SimClock {
 };
 extern SimClock g_clock;
 void sim_clock_reset();
+extern "C" void sim_rand_seed(uint64_t s);   // the rand() yara sees (scanner canaries) restarts from the run seed
 
 // ------------------------------------------------------------------- files --
 struct SimFs {
